@@ -406,7 +406,9 @@ def check(ctx):
     sel = [e for e in loc if e.value != 'None']
     want = gsa.conj(*[x for x in [gsa.atom(a_) for a_ in CB.atoms() if re.search(ISCB, a_)][:1]] + [gsa.neg(gsa.atom(a_)) for a_ in CB.atoms() if re.search(DN, a_)][:1])
     oksel = len(sel) == 1 and gsa.equiv(gsa.assign(sel[0].cond, dict([(a_, True) for a_ in gsa.atoms(sel[0].cond) if a_.startswith('@')] +
-                                                                    [(a_, False) for a_ in gsa.atoms(sel[0].cond) if a_.endswith('.gi_name is None')])), want)   # a Callback always has a gi_name
+                                                                    [(a_, False) for a_ in gsa.atoms(sel[0].cond) if a_.endswith('.gi_name is None')] +
+                                                                    [(a_, False) for a_ in gsa.atoms(sel[0].cond) if a_.endswith(' is None') and
+                                                                     any(b_.startswith('isinstance(%s, ' % a_[:-len(' is None')]) for b_ in gsa.atoms(sel[0].cond))])), want)   # a Callback always has a gi_name; an instance is not None
     r3.check(oksel, 'any callback other than destroy-notify becomes the current callback', mt.rel, sel[0].line if sel else cb.lineno,
              'callback selection: %s' % [(e.value, e.when()[:200]) for e in sel])
     SC = gsa.summarise(ctx, MT, 'MainTransformer._apply_annotations_param_ret_common', opaque=('_is_pointer_type', '_get_validate_parameter_name', '_resolve_toplevel', '_resolve', '_get_transfer_default',
